@@ -1,6 +1,7 @@
 import Cdecao.Model.Cdedb
 import Cdecao.Reader.Spec
 import Cdecao.Proofs.ReaderProofs
+import Cdecao.Proofs.ReaderValid
 /-! # C12 — the problem built from a CdE export is exactly what the export says
 
 `CD.read` models io::cdedb::read from the JSON value on. `RD.read` is the registration loop on a
@@ -248,6 +249,63 @@ theorem C12_read (data : J) (o : Opts) (parts : List Part) (courses : List Cours
           r.instructed = some ci :=
   CD.read_spec data o parts courses amb h
 
+/-! ## the reader delivers a well-formed problem (`Proofs/ReaderValid.lean`) -/
+
+/-- whenever `read` succeeds, its result is well formed against the `registrations` object of the
+    export and the selected track:
+    (i) every choice names a course `< courses.length`, every instructor entry a participant
+        `< parts.length`;
+    (ii) `numMin ≤ numMax` for every course (also after the invisible attendees were subtracted);
+    (iii) over all courses together no participant index occurs twice in the instructor lists;
+    (iv) every participant stems from a registration whose key is its `dbid`, and each penalty is
+        `<` the length of that registration's `choices` array -/
+theorem C12_read_wellformed (data : J) (o : Opts) (parts : List Part) (courses : List Course)
+    (amb : Ambience) (h : CD.read data o = .ok (parts, courses, amb)) :
+    ∃ rdata, (data.get "registrations").bind J.asObject = some rdata ∧
+      (∀ p ∈ parts, ∀ ch ∈ p.choices, ch.1 < courses.length) ∧
+      (∀ c ∈ courses, ∀ i ∈ c.instructors, i < parts.length) ∧
+      (∀ c ∈ courses, c.numMin ≤ c.numMax) ∧
+      (courses.flatMap (fun c => c.instructors)).Nodup ∧
+      (∀ p ∈ parts, ∃ k v, (k, v) ∈ rdata ∧ parseNat k = some p.dbid ∧
+        ∃ chs, CD.regChoices v amb.trackId = some chs ∧ ∀ ch ∈ p.choices, ch.2 < chs.length) := by
+  obtain ⟨rdata, hrd, wf⟩ := CD.read_wellformed h
+  exact ⟨rdata, hrd, wf.choice_lt, wf.instr_lt, wf.min_le_max, wf.nodup, wf.pen⟩
+
+/-- the same in the executable vocabulary of `Spec/Valid.lean` on the converted instance: the
+    first three conjuncts of `N2.validb` hold for every room list -/
+theorem C12_read_wellformed_checks (data : J) (o : Opts) (parts : List Part) (courses : List Course)
+    (amb : Ambience) (rooms : Option (List Nat)) (h : CD.read data o = .ok (parts, courses, amb)) :
+    (CD.toInst parts courses rooms).precomputeOk = true ∧
+      (CD.toInst parts courses rooms).cs.all (fun c => decide (c.numMin ≤ c.numMax)) = true ∧
+      N2.nodupb (CD.toInst parts courses rooms).allInstructors = true := by
+  obtain ⟨rdata, -, wf⟩ := CD.read_wellformed h
+  exact ⟨wf.precomputeOk rooms, wf.minMaxb rooms, wf.nodupb rooms⟩
+
+/-- the hypotheses of the node-level theorems hold for the instance built from an export, provided
+    no penalty exceeds the weight offset 50000 -/
+theorem C12_read_wellformed_instOK2 (data : J) (o : Opts) (parts : List Part) (courses : List Course)
+    (amb : Ambience) (rooms : Option (List Nat)) (h : CD.read data o = .ok (parts, courses, amb))
+    (hpen : ∀ p ∈ parts, ∀ ch ∈ p.choices, ch.2 ≤ N2.WEIGHT) :
+    N2.InstOK2 (CD.toInst parts courses rooms) ∧
+      ∀ c, c < (CD.toInst parts courses rooms).C →
+        ((CD.toInst parts courses rooms).course c).numMin ≤ ((CD.toInst parts courses rooms).course c).numMax :=
+  CD.read_instOK2 h rooms hpen
+
+/-- … or, as a condition on the export alone, provided no registration lists more than 50001
+    choices in the selected track -/
+theorem C12_read_wellformed_of_len (data : J) (o : Opts) (parts : List Part) (courses : List Course)
+    (amb : Ambience) (rooms : Option (List Nat)) (h : CD.read data o = .ok (parts, courses, amb))
+    (hlen : ∀ rdata, (data.get "registrations").bind J.asObject = some rdata →
+      ∀ kv ∈ rdata, ∀ chs, CD.regChoices kv.2 amb.trackId = some chs → chs.length ≤ N2.WEIGHT + 1) :
+    N2.InstOK2 (CD.toInst parts courses rooms) ∧
+      ∀ c, c < (CD.toInst parts courses rooms).C →
+        ((CD.toInst parts courses rooms).course c).numMin ≤ ((CD.toInst parts courses rooms).course c).numMax :=
+  CD.read_instOK2_of_len h rooms hlen
+
+#print axioms C12_read_wellformed
+#print axioms C12_read_wellformed_checks
+#print axioms C12_read_wellformed_instOK2
+#print axioms C12_read_wellformed_of_len
 end Props
 
 #print axioms Props.C12_refuse_no_track
